@@ -13,7 +13,7 @@ exit 0: every obligation discharged (UNSAT within the bounds, twin reachable)
 exit 1: a counterexample reproduced on the real build  -> VIOLATION line
 exit 2: inconclusive (timeout, unknown construct, non-reproducing counterexample...)
 """
-import os, sys, json, re, time, shutil, hashlib, signal, subprocess, tempfile, resource
+import os, sys, json, re, time, shutil, hashlib, signal, subprocess, tempfile, resource, threading
 from concurrent.futures import ThreadPoolExecutor, as_completed
 
 VERIF = os.path.dirname(os.path.dirname(os.path.abspath(__file__)))
@@ -21,6 +21,7 @@ REPO = os.environ.get('VERIF_REPO', '/repo')
 OUT = os.environ.get('VERIF_OUT', VERIF)       # where evidence/ and replays/ are written (seed runs redirect it)
 GUARD = 'SKINNY_C_VERIF'
 JOBS = int(os.environ.get('VERIF_JOBS', str(os.cpu_count() or 4)))
+MEM_BUDGET_GB = float(os.environ.get('VERIF_MEM_GB', '40'))     # solver jobs are admitted while their estimated peak RSS fits this budget
 SHIPPED_STD = 'c99'                       # options.mak: STDC_CFLAGS = -std=c99
 
 INC = ['-I' + os.path.join(VERIF, 'harness'), '-I' + os.path.join(VERIF, 'models'),
@@ -40,7 +41,7 @@ class Q:
     def __init__(self, name, harness, desc, defs=None, units=(), ll=(), cfg=None, unwind=1300,
                  unwindset=None, flags=(), timeout=600, mem_gb=12, witness=True, expect='pass',
                  stubs=False, entry='harness', kf=None, group=None, functions=(), replay=True,
-                 malloc_fail=False, sanitize=False, objbits=None, fsarray=None, std=SHIPPED_STD):
+                 malloc_fail=False, sanitize=False, objbits=None, fsarray=None, std=SHIPPED_STD, mem_est=1.5):
         self.name = name; self.harness = harness; self.desc = desc
         self.defs = dict(defs or {}); self.units = list(units); self.ll = list(ll)
         self.cfg = dict(cfg or {}); self.unwind = unwind; self.unwindset = dict(unwindset or {})
@@ -48,7 +49,7 @@ class Q:
         self.witness = witness; self.expect = expect; self.stubs = stubs; self.entry = entry
         self.kf = kf; self.group = group or name.split(':')[0]; self.functions = list(functions)
         self.replay = replay; self.malloc_fail = malloc_fail; self.sanitize = sanitize
-        self.objbits = objbits; self.fsarray = fsarray; self.std = std
+        self.objbits = objbits; self.fsarray = fsarray; self.std = std; self.mem_est = mem_est
 
 
 class Unit:
@@ -124,6 +125,7 @@ class Runner:
         self.notes = []
         self.t0 = time.time()
         self.build_errors = []
+        self.memcv = threading.Condition(); self.mem_used = 0.0
 
     def cleanup(self):
         if not self.keep:
@@ -190,6 +192,18 @@ class Runner:
 
     # ------------------------------------------------------------------ one solver job
     def run_job(self, q, twin):
+        need = min(q.mem_est, MEM_BUDGET_GB)
+        with self.memcv:
+            while self.mem_used + need > MEM_BUDGET_GB and self.mem_used > 0:
+                self.memcv.wait()
+            self.mem_used += need
+        try:
+            return self._run_job(q, twin)
+        finally:
+            with self.memcv:
+                self.mem_used -= need; self.memcv.notify_all()
+
+    def _run_job(self, q, twin):
         r = Result(q, twin)
         wd = tempfile.mkdtemp(prefix='j-', dir=self.scratch)
         try:
